@@ -233,9 +233,12 @@ def Delivery.isSignal : Delivery → Bool
   | _ => false
 
 /-- whatever comes first after `observation.cancel()` before the first response: the runner is
-quiet afterwards, the observation's listeners got nothing, at most the response future completed -/
+quiet afterwards (or still waiting for its first event, if the application merely cancelled once
+more), the observation's listeners got nothing, at most the response future completed -/
 theorem cancelledFirst_step (cfg : Cfg) (e : TEvent) :
-    Quiet (step cfg .cancelledFirst e).1 ∧ (∀ d ∈ (step cfg .cancelledFirst e).2, d.isSignal = false) ∧
+    ((step cfg .cancelledFirst e).1 = .cancelledFirst ∧ (step cfg .cancelledFirst e).2 = [] ∨
+      Quiet (step cfg .cancelledFirst e).1) ∧
+    (∀ d ∈ (step cfg .cancelledFirst e).2, d.isSignal = false) ∧
     (accepted ((step cfg .cancelledFirst e).2.map (fun d => (e.time, d)))).length ≤ 1 := by
   obtain ⟨t, ev⟩ := e
   cases ev with
@@ -246,7 +249,7 @@ theorem cancelledFirst_step (cfg : Cfg) (e : TEvent) :
     · cases hv : m.notif <;>
         simp [step, stepCancelledFirst, Quiet, Delivery.isSignal, accepted_cons_response, hv]
   | exception k => simp [step, stepCancelledFirst, Quiet, Delivery.isSignal]
-  | obsCancel => simp [step, stepCancelledFirst, Quiet]
+  | obsCancel => simp [step, stepCancelledFirst]
   | respCancel => simp [step, stepCancelledFirst, Quiet, Delivery.isSignal]
 
 /-- the observation was cancelled by the application, or the runner is over -/
@@ -256,7 +259,10 @@ theorem calm_step {cfg : Cfg} {s : ObsState} (h : Calm s) (e : TEvent) :
     Calm (step cfg s e).1 ∧ ∀ d ∈ (step cfg s e).2, d.isSignal = false := by
   rcases h with h | h
   · subst h
-    exact ⟨Or.inr (cancelledFirst_step cfg e).1, (cancelledFirst_step cfg e).2.1⟩
+    refine ⟨?_, (cancelledFirst_step cfg e).2.1⟩
+    rcases (cancelledFirst_step cfg e).1 with h1 | h1
+    · exact Or.inl h1.1
+    · exact Or.inr h1
   · obtain ⟨h1, h2⟩ := quiet_step (cfg := cfg) h e
     exact ⟨Or.inr h1, fun d hd => by rw [h2 d hd]; rfl⟩
 
@@ -276,22 +282,28 @@ theorem calm_run {cfg : Cfg} {s : ObsState} (h : Calm s) (es : List TEvent) :
 
 theorem cancelledFirst_accepted (cfg : Cfg) (es : List TEvent) :
     (accepted (trace cfg .cancelledFirst es)).length ≤ 1 := by
-  cases es with
+  induction es with
   | nil => simp [trace_nil]
-  | cons e es =>
+  | cons e es ih =>
     obtain ⟨h1, _, h3⟩ := cancelledFirst_step cfg e
-    rw [trace_cons, accepted_append, quiet_accepted h1, List.append_nil]
-    exact h3
+    rw [trace_cons, accepted_append]
+    rcases h1 with ⟨hs, hd⟩ | hq
+    · rw [hs, hd]
+      simpa using ih
+    · rw [quiet_accepted hq, List.append_nil]
+      exact h3
 
 theorem cancelledFirst_not_observing (cfg : Cfg) (es : List TEvent) (v t : Nat) :
     finalState cfg .cancelledFirst es ≠ .observing v t := by
-  cases es with
+  induction es with
   | nil => simp [finalState_nil]
-  | cons e es =>
+  | cons e es ih =>
     rw [finalState_cons]
-    intro he
-    have := (quiet_run (cfg := cfg) (cancelledFirst_step cfg e).1 es).1
-    rw [he] at this
-    simp [Quiet] at this
+    rcases (cancelledFirst_step cfg e).1 with ⟨hs, _⟩ | hq
+    · rw [hs]; exact ih
+    · intro he
+      have := (quiet_run (cfg := cfg) hq es).1
+      rw [he] at this
+      simp [Quiet] at this
 
 end Aiocoap.Observe
